@@ -140,7 +140,7 @@ class AtomsEngine(Engine):
     name = 'session_atoms'
     max_ops = 50
     expected_probes = ['inplace_overwrite_other_dtype', 'alias_candidate_used', 'refused_raised', 'scribble_result',
-                       'scribble_safecopy', 'setitem_overlap', 'extend_new_props_both_sides', 'natypes_grew', 'readonly_reassign_refused', 'noncontiguous_input', 'atype_lt1_scalar_forms', 'default_constructed_object', 'types_renumbered_through_prop_atype', 'scaled_access_by_a_id', 'symbol_as_numpy_string', 'integer_typed_positions', 'atoms_df_scale_list', 'assigned_a_view_of_itself', 'view_set_through_mapping_method', 'atoms_df_scale_given_as_one_name', 'held_table_checked_after_edits', 'scribble_on_table',
+                       'scribble_safecopy', 'setitem_overlap', 'extend_new_props_both_sides', 'natypes_grew', 'readonly_reassign_refused', 'noncontiguous_input', 'atype_lt1_scalar_forms', 'default_constructed_object', 'types_renumbered_through_prop_atype', 'scaled_access_by_a_id', 'symbol_as_numpy_string', 'integer_typed_positions', 'atoms_df_scale_list', 'assigned_a_view_of_itself', 'view_set_through_mapping_method', 'refused_setitem_same_number_of_properties', 'refused_prop_atype_on_new_key', 'refused_system_constructor', 'atoms_df_scale_given_as_one_name', 'held_table_checked_after_edits', 'scribble_on_table',
                        'negative_index', 'mask_index', 'scaled_write', 'prop_atype_single_new_key', 'df_checked',
                        'box_set_with_possible_sharers', 'box_alias_candidate_used']
     rule = ('Each run keeps a pool of up to 6 live Atoms/System objects (parent/child links recorded) and applies up to '
@@ -468,7 +468,8 @@ class AtomsEngine(Engine):
         r = ctx.rng
         m = st['pool'][slot]
         what = r.choice(['wrong_first_dim', 'atype_lt1', 'setitem_mismatch', 'too_many_masses', 'a_id_and_index',
-                         'unknown_key', 'value_without_key', 'prop_atype_bad', 'setitem_nonatoms', 'extend_bad'])
+                         'unknown_key', 'value_without_key', 'prop_atype_bad', 'setitem_nonatoms', 'extend_bad',
+                         'setitem_mismatch', 'prop_atype_bad', 'system_ctor_refused'])
         op = {'op': 'refuse', 'o': slot, 'what': what}
         if what == 'wrong_first_dim':
             key = r.choice(list(m.reg))
@@ -489,12 +490,23 @@ class AtomsEngine(Engine):
             extra = names[:1] if names else []
             drop = [] if extra else [nm for nm in m.reg if nm not in ('atype', 'pos')][:1]
             keep = [nm for nm in m.reg if nm not in ('atype', 'pos') and nm not in drop] + extra
+            own = [nm for nm in m.reg if nm not in ('atype', 'pos')]
+            if names and own and r.random() < 0.6:
+                # as many properties as the target has, one of them under another name
+                keep = own[1:] + names[:1]
+                extra = names[:1]
             if not extra and not drop:
                 op['what'] = 'a_id_and_index'
             else:
-                op.update(spec=self._spec(ctx, st, 1, names=keep), index={'k': 'int', 'i': 0})
+                rows = 2 if (m.n >= 2 and r.random() < 0.6) else 1
+                op.update(spec=self._spec(ctx, st, rows, names=keep), index={'k': 'int', 'i': 0},
+                          how=r.choice(['slice', 'list'] if rows == 2 else ['int', 'negint', 'slice', 'list']), via=r.choice(['atoms', 'prop', 'ix']))
         elif what == 'prop_atype_bad':
-            op.update(atype=m.natypes() + r.randint(1, 3))
+            names = [nm for nm in st['reg'] if nm not in m.reg]
+            op.update(atype=m.natypes() + r.randint(1, 3), key=(names[0] if (names and r.random() < 0.6) else 'pos'))
+        elif what == 'system_ctor_refused':
+            V = geom.draw_tri_cell(r, 1.0) * 3.0
+            op.update(V=V, origin=geom.draw_origin(r, float(np.abs(V).max())), scale=r.random() < 0.7, bad=r.choice(['masses', 'symbols_masses']))
         return op
 
     # ------------------------------------------------------------------
@@ -1450,7 +1462,20 @@ class AtomsEngine(Engine):
             if not self._spec_ok(st, spec) or set(spec['props']) | {'atype', 'pos'} == set(m.reg) or m.n < 1:
                 return {'skip': 1}
             a, _, _, _ = self._build_atoms(ctx, spec)
-            ok, res = ctx.sut(atoms.__setitem__, 0, a)
+            how = op.get('how', 'int')
+            rows = int(spec['n'])
+            if rows > m.n or (rows > 1 and how in ('int', 'negint')):
+                return {'skip': 1}
+            ix = {'int': 0, 'negint': -m.n, 'slice': slice(0, rows), 'list': list(range(rows))}[how]
+            via = op.get('via', 'atoms')
+            if via == 'ix' and m.kind == 'system':
+                ok, res = ctx.sut(m.real.atoms_ix.__setitem__, ix, a)
+            elif via == 'prop':
+                ok, res = ctx.sut(atoms.prop, index=ix, value=a)
+            else:
+                ok, res = ctx.sut(atoms.__setitem__, ix, a)
+            if len(spec['props']) + 2 == len(m.reg):
+                ctx.probe('refused_setitem_same_number_of_properties')
             must = True
         elif what == 'too_many_masses':
             if m.kind != 'system':
@@ -1470,7 +1495,24 @@ class AtomsEngine(Engine):
         elif what == 'prop_atype_bad':
             if op['atype'] <= m.natypes():
                 return {'skip': 1}
-            ok, res = ctx.sut(atoms.prop_atype, 'pos', [0.0, 0.0, 0.0], atype=op['atype'])
+            key = op.get('key', 'pos')
+            if key != 'pos' and key in m.reg:
+                key = 'pos'
+            cls, ts = ('float', (3,)) if key == 'pos' else st['reg'].get(key, ('float', ()))
+            ok, res = ctx.sut(atoms.prop_atype, key, zero_of(cls, ts) if ts else 1.5, atype=op['atype'])
+            if key != 'pos':
+                ctx.probe('refused_prop_atype_on_new_key')
+            must = True
+        elif what == 'system_ctor_refused':
+            if m.kind != 'atoms' or m.n < 1:
+                return {'skip': 1}
+            # building a System around this Atoms is refused (more masses than atom types): the Atoms is the caller's and
+            # must come out of the failed call as it went in, so that the corrected retry starts from the same data
+            nt = m.natypes()
+            box = am.Box(vects=np.array(op['V'], dtype=float), origin=np.array(op['origin'], dtype=float))
+            kw = {'masses': [1.0] * (nt + 2), 'symbols': ['Al'] * nt}      # symbols fix the number of types: two masses too many
+            ok, res = ctx.sut(am.System, atoms=atoms, box=box, scale=bool(op.get('scale')), **kw)
+            ctx.probe('refused_system_constructor')
             must = True
         elif what == 'setitem_nonatoms':
             ok, res = ctx.sut(atoms.__setitem__, 0, {'pos': [0, 0, 0]})
